@@ -3,11 +3,13 @@
 (* evaluated on every string of up to MaxLen characters over Alphabet; one output line per glob.        *)
 EXTENDS Glob, Json
 CONSTANTS MaxTokens, MaxLen, WithCI
-Alphabet == {"a", "A", ".", "-", "ż", "/"}
+\* "%" stands for a non-ASCII letter (the driver substitutes U+017C): TLC 1.8 / the Json module printed that letter as "|" in a few
+\* of several hundred thousand places, deterministically, so the specification stays ASCII
+Alphabet == {"a", "A", ".", "-", "%", "/"}
 Lit(c) == [t |-> "lit", c |-> c, e |-> FALSE]
 EscLit(c) == [t |-> "lit", c |-> c, e |-> TRUE]      \* written with a backslash in the glob text: still the literal character
 L1(c) == <<Lit(c)>>
-Tokens == {Lit("a"), Lit("A"), EscLit("a"), EscLit("-"), Lit("."), Lit("-"), Lit("+"), Lit("("), Lit("ż"), Lit("/"),
+Tokens == {Lit("a"), Lit("A"), EscLit("a"), EscLit("-"), Lit("."), Lit("-"), Lit("+"), Lit("("), Lit("%"), Lit("/"),
            [t |-> "any1"], [t |-> "star"], [t |-> "dstar"],
            [t |-> "class", s |-> {"a", "."}, neg |-> FALSE], [t |-> "class", s |-> {"a"}, neg |-> TRUE],
            [t |-> "alt", alts |-> <<L1("a"), <<Lit("A"), Lit(".")>>>>],
